@@ -147,3 +147,34 @@ Theorem from_attrs_preserves verb seqn x0 x1 x2 code payload f :
 Proof.
   unfold cmd_from_attrs. destruct (pkt_addrs x0 x1 x2); [|discriminate]. apply print_parse.
 Qed.
+
+(* ---- the CLI short form: a command built from it prints the address fields it was given / the documented completion ---- *)
+Theorem cli_triple_kept verb seqn a b c code payload f :
+  cmd_from_cli verb seqn [a; b; c] code payload = Ok f ->
+  print_frame f = attrs_text verb seqn a b c code (firstn 48 payload).
+Proof. unfold cmd_from_cli. cbn [cli_addrs]. apply from_attrs_preserves. Qed.
+Theorem cli_short_forms verb seqn a b code payload f :
+  str_eqb verb (lit " I") = false ->
+  (cmd_from_cli verb seqn [a] code payload = Ok f -> print_frame f = attrs_text verb seqn HGI_ADDR a NON_DEV code (firstn 48 payload)) /\
+  (cmd_from_cli verb seqn [a; a] code payload = Ok f -> print_frame f = attrs_text verb seqn a NON_DEV a code (firstn 48 payload)) /\
+  (str_eqb a b = false -> cmd_from_cli verb seqn [a; b] code payload = Ok f -> print_frame f = attrs_text verb seqn a b NON_DEV code (firstn 48 payload)).
+Proof.
+  intros V. unfold cmd_from_cli. cbn [cli_addrs]. rewrite V. repeat split.
+  - apply from_attrs_preserves.
+  - rewrite str_eqb_refl. apply from_attrs_preserves.
+  - intros N. rewrite N. apply from_attrs_preserves.
+Qed.
+
+(* the whole CLI string, tokenised: with its sequence number spelt out (anything that does not look like a device id), three address tokens
+   are the frame's three address fields whatever they are -- the null address first included *)
+Theorem cli_toks_triple_kept verb seqn a b c code payload f :
+  is_dev_id seqn = false ->
+  cmd_from_cli_toks [verb; seqn; a; b; c; code; payload] = Ok f ->
+  print_frame f = attrs_text verb seqn a b c code (firstn 48 payload).
+Proof. intros S. unfold cmd_from_cli_toks. cbn [length Nat.ltb Nat.leb]. rewrite S. cbn [rev app]. apply cli_triple_kept. Qed.
+(* without it, three address tokens of which the first is a device id are kept too *)
+Theorem cli_toks_triple_kept_no_seqn verb a b c code payload f :
+  is_dev_id a = true ->
+  cmd_from_cli_toks [verb; a; b; c; code; payload] = Ok f ->
+  print_frame f = attrs_text verb (lit "---") a b c code (firstn 48 payload).
+Proof. intros S. unfold cmd_from_cli_toks. cbn [length Nat.ltb Nat.leb]. rewrite S. cbn [rev app]. apply cli_triple_kept. Qed.
